@@ -9,7 +9,7 @@ A document is plain JSON (so that it can be handed to TLC unchanged):
 
   Block B:  ["p", [I..]] | ["h", level, [I..]] | ["ul", [[B..] ..]] | ["tbl", [[[B..] ..] ..]]
             | ["sdt", [B..]] | ["tbx", [B..]]
-  Inline I: ["r", id] | ["tab"] | ["br"] | ["a", [I..]] | ["ins", [I..]] | ["del", [I..]]
+  Inline I: ["r", id] | ["tab"] | ["br"] | ["sp"] (a blank that is a text node of its own between two runs) | ["a", [I..]] | ["ins", [I..]] | ["del", [I..]]
             | ["isdt", [I..]] | ["fn", id] | ["cm", id] | ["itbx", [B..]] (text box anchored in the paragraph)
 
 Every text leaf is a token id (positive int, unique in the document); it is rendered as the
